@@ -134,6 +134,12 @@ def with_names(base: Base, domain: str, forest: str) -> bytes:
     return cms.build_blob(gkdi.pack_key_identifier(kid), p["sid"], p["enc_cek"], p["gcm_nonce"], p["enc_content"], in_envelope=in_env)
 
 
+def with_descriptor(base: Base, oid: str, type_string: str, value: str) -> bytes:
+    """The same record under another, self-consistent protection descriptor (OID and type string changed together)."""
+    p = cms.parse_blob(base.blob)
+    return cms.build_blob(p["key_identifier_raw"], value, p["enc_cek"], p["gcm_nonce"], p["enc_content"], in_envelope="/env" in base.name, descriptor=(oid, type_string))
+
+
 def unprotect_stored(base: Base, stored: bytes, with_key: t.Union[bool, int] = True, line_limit: int = 0, flavour: str = "sync", kdf_limit: int = 300, then_valid: bool = False,
                      bad_load_first: t.Optional[dict] = None, cpu_limit: float = 0.0, valid_first: t.Sequence[bytes] = ()):
     """Real ncrypt_unprotect_secret on ``stored`` with offline key material and no reachable DC.
